@@ -186,6 +186,77 @@ pub fn walk_roots_mode(starts: &[(u32, u32)], plies: usize, mult: usize, null_ev
     per_start.into_iter().flatten().collect()
 }
 
+/// R-MARCH: deterministic "king march" lines from real start positions (no null moves, so every
+/// root is provably reachable). One side (White on even white-numbers, Black on odd) walks its king
+/// towards a corner of the ENEMY back rank: among its legal king moves it plays the one that brings
+/// the king closest to the target (ties by the index schedule); when no king move makes progress it
+/// plays a scheduled non-king, non-rook move. The other side never moves its king or rooks while it
+/// has another move, so its castling rights survive: positions with a king deep in the enemy camp
+/// next to rooks that still carry their rights.
+pub fn march_roots(starts: &[(u32, u32)], plies: usize, root_every: usize, sink: &Sink) -> Vec<(RootDesc, Board)> {
+    let per_start: Vec<Vec<(RootDesc, Board)>> = starts
+        .par_iter()
+        .map(|&(w, b)| {
+            let mut out = Vec::new();
+            let mut board = match RootDesc::Dfrc(w, b).board() {
+                Ok(bd) => bd,
+                Err(e) => {
+                    sink.start_failed("double Chess960 start position cannot be constructed", json!({"kind": "start", "root": RootDesc::Dfrc(w, b).json()}), e);
+                    return out;
+                }
+            };
+            let marcher = if w % 2 == 0 { Col::W } else { Col::B };
+            let target = sq(if (w / 2) % 2 == 0 { 0 } else { 7 }, marcher.other().back_rank());
+            let dist = |s: Sq| -> i32 { (refmodel::file_of(s) as i32 - refmodel::file_of(target) as i32).abs().max((refmodel::rank_of(s) as i32 - refmodel::rank_of(target) as i32).abs()) };
+            let mut moves: Vec<String> = Vec::new();
+            for p in 0..plies {
+                let pos = alpha(&board);
+                let legal = pos.legal_moves();
+                if legal.is_empty() {
+                    break;
+                }
+                let idx = 7 * p + w as usize + 3 * b as usize;
+                let quiet: Vec<refmodel::Mv> = legal.iter().copied().filter(|m| !matches!(pos.sq[m.from as usize], Some((Kind::K, _)) | Some((Kind::R, _)))).collect();
+                let mv = if pos.stm == marcher {
+                    let k = pos.king_sq(marcher).unwrap();
+                    let mut best: Vec<refmodel::Mv> = Vec::new();
+                    let mut best_d = dist(k);
+                    for m in legal.iter().copied().filter(|m| m.from == k && !pos.is_castle(*m)) {
+                        let d = dist(m.to);
+                        if d < best_d {
+                            best_d = d;
+                            best = vec![m];
+                        } else if d == best_d && !best.is_empty() {
+                            best.push(m);
+                        }
+                    }
+                    if !best.is_empty() {
+                        best[idx % best.len()]
+                    } else if !quiet.is_empty() {
+                        quiet[idx % quiet.len()]
+                    } else {
+                        legal[idx % legal.len()]
+                    }
+                } else if !quiet.is_empty() {
+                    quiet[idx % quiet.len()]
+                } else {
+                    legal[idx % legal.len()]
+                };
+                board = match apply(&board, Act::Move(mv)) {
+                    Ok(bd) => bd,
+                    Err(_) => break,
+                };
+                moves.push(Act::Move(mv).text());
+                if (p + 1) % root_every == 0 {
+                    out.push((RootDesc::Line(w, b, moves.clone()), board.clone()));
+                }
+            }
+            out
+        })
+        .collect();
+    per_start.into_iter().flatten().collect()
+}
+
 pub const CLOCK_BASES: &[(&str, &str)] = &[
     ("r3k2r/p1ppqpb1/bn2pnp1/3PN3/1p2P3/2N2Q1p/PPPBBPPP/R3K2R", "KQkq"),
     ("4k3/7p/8/8/8/8/4P3/4K2R", "K"),
